@@ -233,7 +233,7 @@ static MessageRef Strip(const Message & m)
       const String & fn = it.GetFieldName();
       uint32 tc = 0, n = 0; (void) m.GetInfo(fn, &tc, &n);
       if ((tc == B_TAG_TYPE)||(tc == B_POINTER_TYPE)) continue;
-      if (tc == B_MESSAGE_TYPE) {for (uint32 i=0; i<n; i++) {MessageRef sub; if (m.FindMessage(fn, i, sub).IsOK()) (void) r()->AddMessage(fn, Strip(*sub()));}}
+      if ((tc == B_MESSAGE_TYPE)&&(n > 0)) {for (uint32 i=0; i<n; i++) {MessageRef sub; if (m.FindMessage(fn, i, sub).IsOK()) (void) r()->AddMessage(fn, Strip(*sub()));}}
       else (void) m.CopyName(fn, *r());
    }
    return r;
@@ -785,7 +785,8 @@ static void ContentText(const mj::Value & c, std::string & out)
    char tmp[64]; snprintf(tmp, sizeof(tmp), "M %08x %zu", W32(c["what"]), c["fields"].a.size()); out += tmp;
    for (size_t i=0; i<c["fields"].a.size(); i++)
    {
-      const mj::Value & f = c["fields"].a[i]; const uint32 tc = W32(f["type"]);
+      const mj::Value & f = c["fields"].a[i]; uint32 tc = W32(f["type"]);
+      if (tc == B_TAG_TYPE) tc = B_POINTER_TYPE;      // non-flattenable fields: the mini codec builds them with MMPutPointerField, the micro codec and message.py have no such kind and skip them
       out += ' '; out += Hex(BytesOf(f["name"]));
       snprintf(tmp, sizeof(tmp), " %08x %zu", tc, f["items"].a.size()); out += tmp;
       for (size_t j=0; j<f["items"].a.size(); j++) {out += ' '; if (tc == B_MESSAGE_TYPE) ContentText(f["items"].a[j], out); else out += Hex(BytesOf(f["items"].a[j]));}
@@ -846,7 +847,7 @@ struct Impls
    Impls() : comparisons(0) {}
    void Setup(char ** av)   // <wire_mini> <wire_micro> <python3> <wire_py.py>
    {
-      mini.name = "mini";   mini.args.push_back(av[0]); mini.nDetours = 7;      // the helpers' D command: the same content through the implementation's own mutating calls
+      mini.name = "mini";   mini.args.push_back(av[0]); mini.nDetours = 8;      // the helpers' D command: the same content through the implementation's own mutating calls
       micro.name = "micro"; micro.args.push_back(av[1]); micro.nDetours = 3; py.nDetours = 5;
       py.name = "python";   py.args.push_back(av[2]); py.args.push_back("-u"); py.args.push_back(av[3]); py.args.push_back("serve"); py.args.push_back(std::string(getenv("VERIF_REPO") ? getenv("VERIF_REPO") : "/repo") + "/lang/python3");
    }
@@ -1030,7 +1031,7 @@ static int X08Vec(int argc, char ** argv)
 }
 
 // ------------------------------------------------------------------------------------------------ x08gen (C08 code -> spec)
-static bool allowZero = true;
+static bool allowZero = true, allowNonFlat = true;
 static bool ContentHasZero(const mj::Value & c)
 {
    const mj::Value & fs = c["fields"];
@@ -1055,8 +1056,8 @@ static mj::Value RandContent(Rng & R, int depth, bool utf8, bool noSNaN, bool as
       const std::string key = BytesOf(n);
       if (used.count(key)) continue;
       used.insert(key);
-      uint32 tc = RandType(R, depth+1, false);        // nesting <= 3 below the top
-      const uint32 cnt = ((allowZero)&&(R(40) == 0)) ? 0 : ((tc == B_MESSAGE_TYPE) ? 1+R(3) : (R(8) ? 1+R(3) : 1+R(40)));   // 0: a field emptied through a Message it was shared with
+      uint32 tc = RandType(R, depth+1, (allowNonFlat)&&(R(3) == 0));        // nesting <= 3 below the top; now and then a pointer / tag field (never on the wire)
+      const uint32 cnt = ((allowZero)&&(tc != B_TAG_TYPE)&&(tc != B_POINTER_TYPE)&&(R(40) == 0)) ? 0 : ((tc == B_MESSAGE_TYPE) ? 1+R(3) : (R(8) ? 1+R(3) : 1+R(40)));   // 0: a field emptied through a Message it was shared with
       mj::Value its = mj::Value::Arr();
       for (uint32 j=0; j<cnt; j++) its.push((tc == B_MESSAGE_TYPE) ? RandContent(R, depth+1, utf8, noSNaN, asciiSub) : RandItem(R, tc, utf8, noSNaN));
       fs.push(mj::Value::Obj().set("name", n).set("type", ArrOf(LE32(tc))).set("items", its));
@@ -1262,7 +1263,22 @@ static int PyEcho(int argc, char ** argv)
    Rng R(seed * 3000017u + 7); g_sliceRng = &R;
    const bool asciiSub = (argc > 7)&&(strstr(argv[7], "F39") != NULL);   // while F39 is open a wrong sub-Message length would derail the whole stream
    snprintf(g_ctx, sizeof(g_ctx), "pyecho port %u seed %u", (unsigned) port, seed);
-   ConstSocketRef s = Connect(IPAddressAndPort(Inet_AtoN("127.0.0.1"), port), NULL, NULL, true, SecondsToMicros(10));
+   ConstSocketRef s;
+   Child pyc;            // listen mode: the Python transceiver CONNECTS to us (its connecting socket is non-blocking: its send() calls can be partial)
+   if (strcmp(argv[2], "listen") == 0)
+   {
+      if (argc < 11) return 2;
+      uint16 lport = 0; ConstSocketRef as = CreateAcceptingSocket(0, 20, &lport);
+      if (as() == NULL) {ReportLine(mj::Value::Obj().set("summary", mj::Value::Bool(true)).set("skipped", mj::Value::Str("cannot listen on a loopback port"))); return 0;}
+      (void) SetSocketBlockingEnabled(as, false);
+      pyc.name = "python"; pyc.args.push_back(argv[9]); pyc.args.push_back("-u"); pyc.args.push_back(argv[10]); pyc.args.push_back("echoconnect");
+      pyc.args.push_back(std::string(getenv("VERIF_REPO") ? getenv("VERIF_REPO") : "/repo") + "/lang/python3"); pyc.args.push_back(std::to_string((unsigned) lport));
+      if (pyc.Start() == false) return 2;
+      const uint64 adl = GetRunTime64() + SecondsToMicros(30);
+      while ((s() == NULL)&&(GetRunTime64() < adl)) {s = Accept(as); if (s() == NULL) (void) Snooze64(2000);}
+      if (s() == NULL) {pyc.Stop(); ReportLine(mj::Value::Obj().set("summary", mj::Value::Bool(true)).set("skipped", mj::Value::Str("the Python transceiver did not connect to 127.0.0.1"))); return 0;}
+   }
+   else s = Connect(IPAddressAndPort(Inet_AtoN("127.0.0.1"), port), NULL, NULL, true, SecondsToMicros(10));
    if (s() == NULL) {ReportLine(mj::Value::Obj().set("summary", mj::Value::Bool(true)).set("skipped", mj::Value::Str("cannot connect to the Python transceiver on 127.0.0.1"))); return 0;}
    (void) SetSocketBlockingEnabled(s, false); (void) SetSocketNaglesAlgorithmEnabled(s, false);
    MessageIOGateway gw; gw.SetDataIO(DataIORef(new TCPSocketDataIO(s, false))); QueueGatewayMessageReceiver q;
@@ -1351,9 +1367,36 @@ static int PyEcho(int argc, char ** argv)
          MessageRef ack = GetMessageFromPool(0x41434b31); (void) gw.AddOutgoingMessage(ack);
       }
    }
+   // ... then frames that do NOT fit one send(): Messages of several MB echoed by the Python side to a peer that reads in small pieces with pauses
+   uint32 bigSame = 0, bigSent = 0;
+   if ((viol.empty())&&(ioError == false))
+   {
+      const uint32 nBig = (argc > 8) ? (uint32) atoi(argv[8]) : 2; const uint32 mb[] = {2, 8, 12};
+      for (uint32 bi=0; (bi<nBig)&&(bi<3)&&(viol.empty()); bi++)
+      {
+         const uint32 nBytes = mb[bi]*1024*1024 + 13*bi + 5;
+         ByteBufferRef buf = GetByteBufferFromPool(nBytes); if (buf() == NULL) return 2;
+         {uint8 * p = buf()->GetBuffer(); uint32 x = 2463534242u + bi; for (uint32 i=0; i<nBytes; i++) {x ^= x << 13; x ^= x >> 17; x ^= x << 5; p[i] = (uint8) x;}}
+         MessageRef m = GetMessageFromPool(0x42494730 + bi); (void) m()->AddString("note", "big"); (void) m()->AddFlat("blob", buf); (void) m()->AddInt32("tail", (int32) bi);
+         const std::string want = FlatPlain(*m());
+         (void) gw.AddOutgoingMessage(m); bigSent++;
+         std::string have; bool gotOne = false; uint32 reads = 0;
+         const uint64 dl = GetRunTime64() + SecondsToMicros(180);
+         while ((gotOne == false)&&(GetRunTime64() < dl))
+         {
+            if (gw.HasBytesToOutput()) (void) gw.DoOutput(1+R(R(2) ? 70000 : 1000000));
+            if (gw.DoInput(q, 1+R(R(3) ? 60000 : 2000)).IsError()) {ioError = true; break;}          // small pieces ...
+            if ((++reads % 40) == 0) (void) Snooze64(300);                                           // ... with pauses: the sender's socket buffer fills up
+            MessageRef r; if (q.GetMessages().RemoveHead(r).IsOK()) {have = FlatPlain(*r()); gotOne = true;}
+         }
+         if ((gotOne)&&(have == want)) bigSame++;
+         else {char tmp[240]; snprintf(tmp, sizeof(tmp), "a Message of %u MB (frame does not fit one send()) echoed by the Python transceiver %s", mb[bi], gotOne ? "comes back with other bytes" : (ioError ? "cannot be read: the stream lost frame synchronisation / the connection broke" : "does not arrive within 180 s")); viol.push_back(tmp);}
+      }
+   }
    fclose(tr);
+   if (pyc.to) pyc.Stop();
    if (viol.size() > 0) ReportLine(mj::Value::Obj().set("violations", StrArr(viol)).set("seed", mj::Value::Int(seed)));
-   ReportLine(mj::Value::Obj().set("summary", mj::Value::Bool(true)).set("resent_status_frames_identical", mj::Value::Int(histSame)).set("sent", mj::Value::Int((int64_t) sent.size())).set("echoed_identically", mj::Value::Int(same)).set("bytes", mj::Value::Int((int64_t) bytes)));
+   ReportLine(mj::Value::Obj().set("summary", mj::Value::Bool(true)).set("big_frames_sent", mj::Value::Int(bigSent)).set("big_frames_identical", mj::Value::Int(bigSame)).set("resent_status_frames_identical", mj::Value::Int(histSame)).set("sent", mj::Value::Int((int64_t) sent.size())).set("echoed_identically", mj::Value::Int(same)).set("bytes", mj::Value::Int((int64_t) bytes)));
    return 0;
 }
 
